@@ -124,6 +124,12 @@ def socket_parse_connection(self, s):
     return inet_connection_address(s)
 
 
+# docs/logging-components.rst / the property text: level names and numbers
+_logging_levels = {"critical": 50, "fatal": 50, "error": 40, "warn": 30,
+                   "warning": 30, "info": 20, "blather": 15, "debug": 10,
+                   "trace": 5, "all": 1, "notset": 0}
+
+
 def logging_level(value):
     s = str(value).lower()
     if s in _logging_levels:
